@@ -8,7 +8,8 @@ META = {
     "text": "Design level: Heap.tla's NonMovingStay invariant with a collector mutant that "
             "relocates a non-moving object (rejected by TLC). Conformance: generated programs "
             "allocate with Immortal, Los and NonMoving semantics (and pin objects in "
-            "object_pinning builds, thorough tier) under moving plans whose collections do move the "
+            "object_pinning builds: pin_object / unpin_object on young and old objects where the policy "
+            "supports the call) under moving plans whose collections do move the "
             "other objects (the evidence counts moved objects); after every collection TLC checks "
             "on HeapTrace.tla that each such reachable object is at its allocation address and "
             "that every object ever allocated in a never-collected space - reachable or not - is "
